@@ -53,6 +53,9 @@ enum Act {
         hash: u8,
         auth: bool,
     },
+    /// the first destination tries to consume a message with an empty id (or an empty chain) that
+    /// was never approved
+    ValidateEmpty { empty_chain: bool },
     Advance(u32),
     /// the signer set is rotated (approvals and executed marks must be unaffected)
     Rotate,
@@ -194,6 +197,8 @@ impl Scenario for C02 {
                 v.push(Act::Validate { key: k, caller, src: 0, hash: 0, auth: false });
             }
         }
+        v.push(Act::ValidateEmpty { empty_chain: false });
+        v.push(Act::ValidateEmpty { empty_chain: true });
         if m.rotations < 1 {
             v.push(Act::Rotate);
         }
@@ -307,6 +312,22 @@ impl Scenario for C02 {
                         format!("{:?}", call.events)
                     });
                 }
+            }
+            Act::ValidateEmpty { empty_chain } => {
+                out.kind = "validate-never-approved";
+                let who = ctx.dests[0].clone();
+                let (chain, id) = if *empty_chain { ("", "x") } else { ("ab", "") };
+                let h0 = w.state_hash();
+                let call = w.call(
+                    &ctx.gw,
+                    "validate_message",
+                    &[who.to_val(), to_val(env, &sstr(chain)), to_val(env, &sstr(id)), to_val(env, &sstr(src_str(0))), to_val(env, &sbytes(&hash_of(0)))],
+                    Auth::By(&[who.clone()]),
+                );
+                let consumed = call.ok && call.ret_bool() == Some(true);
+                out.accepted = false;
+                out.expect(!consumed, "validate.consumption", || format!("a never-approved message with {} was consumed", if *empty_chain { "an empty chain name" } else { "an empty id" }));
+                out.expect(h0 == w.state_hash(), "validate.refused-but-changed-state", || "a refused consumption changed the ledger state".into());
             }
             Act::Rotate => {
                 out.kind = "rotate";
@@ -442,7 +463,7 @@ fn main() {
         let mut o = Opts::new(tier, if tier == "quick" { 12 } else { 16 });
         o.min_depth = 4;
         o.xcheck = tier == "thorough";
-        o.rule = "all sequences over {approve single x4 contents per key, 4 batches (same-key/different-content, identical twins, two keys, three entries), a signer rotation, validate_message x {3 callers (two principals, one calling contract; a fourth destination, the account-type address made of the first principal's 32 bytes, can be approved for but never consumes), 2 source addresses differing only in letter case, 2 payload hashes, authorised or not} per key, advance 20 ledgers (bounded)}; keys 0/1 differ only in where chain ends and id begins, key 2 from key 0 only in letter case and a trailing blank; ids are 40 bytes with every customary separator; 12 never-approved sibling keys (separator shifted into the chain, same 32-byte prefix, same length) must never show a status; from every state without time passing a batch of 100 (quick) / 300 (thorough) fresh messages plus the three keys is approved on a snapshot and every entry checked; explored to fixpoint of the finite status graph; after every new state is_message_approved for all key x content pairs and is_message_executed for all keys are compared with the model".into();
+        o.rule = "all sequences over {approve single x4 contents per key, 4 batches (same-key/different-content, identical twins, two keys, three entries), a signer rotation, validate_message x {3 callers (two principals, one calling contract; a fourth destination, the account-type address made of the first principal's 32 bytes, can be approved for but never consumes), 2 source addresses differing only in letter case, 2 payload hashes, authorised or not} per key, consumption attempts for never-approved messages with an empty id / empty chain name, advance 20 ledgers (bounded)}; keys 0/1 differ only in where chain ends and id begins, key 2 from key 0 only in letter case and a trailing blank; ids are 40 bytes with every customary separator; 12 never-approved sibling keys (separator shifted into the chain, same 32-byte prefix, same length) must never show a status; from every state without time passing a batch of 100 (quick) / 300 (thorough) fresh messages plus the three keys is approved on a snapshot and every entry checked; explored to fixpoint of the finite status graph; after every new state is_message_approved for all key x content pairs and is_message_executed for all keys are compared with the model".into();
         (s, o)
     });
 }
